@@ -114,6 +114,16 @@ def check_real(case):
     facts = dict(cfg, dtype=case["dtype"])
     ef, out, ref = _run(cfg, X, facts)
     require(np.array_equal(X, X0), "input-modified", "", facts)
+    # other memory layouts of the same matrix and a second call on the same fitted object give the same columns
+    again = ef.transform(X)
+    require(np.array_equal(np.asarray(again), np.asarray(out)), "second-call-differs", "", facts)
+    for lname, Xv in (("F-order", np.asfortranarray(X.copy())), ("non-contiguous", np.repeat(X, 2, axis=1)[:, ::2]), ("row-view", np.vstack([X, X])[::2])):
+        if Xv.shape != X.shape:
+            Xv = Xv[:X.shape[0]]
+        if not np.array_equal(Xv, X):
+            continue
+        outv = ef.transform(Xv)
+        require(np.array_equal(np.asarray(outv), np.asarray(out)), "layout-differs", "%s input gives other columns" % lname, dict(facts, layout=lname))
     # the other kind agrees too
     other = dict(cfg, kind="poly-slow" if cfg["kind"] == "poly" else "poly")
     _, out2, _ = _run(other, X, dict(facts, kind=other["kind"]))
